@@ -1817,9 +1817,19 @@ func (c *fnCtx) rangeStmt(b *block, x *ast.RangeStmt) {
 	lv := fmt.Sprintf("__l%d", c.tmpN)
 	b.add("let %s ← forRange %s %s %s", lv, collS, initT, fn)
 	b.add("match %s with", lv)
-	if c.inLoop {
+	hasReturn := false
+	ast.Inspect(x.Body, func(n ast.Node) bool {
+		if _, ok := n.(*ast.ReturnStmt); ok {
+			hasReturn = true
+		}
+		return true
+	})
+	switch {
+	case !hasReturn:
+		b.add("| Loop.ret _ => none") // unreachable: the loop body contains no return statement
+	case c.inLoop:
 		b.add("| Loop.ret __r => return Ctl.ret __r")
-	} else {
+	default:
 		b.add("| Loop.ret __r => return __r")
 	}
 	switch len(state) {
